@@ -6,4 +6,5 @@ export CARGO_NET_OFFLINE=true
 H="$(pwd)/harness"
 ( cd "$H" && cargo build --offline --profile release ) || exit 1
 ( cd "$H" && cargo build --offline --profile checked ) || exit 1
+( cd /repo && cargo build --offline --release -p server --features verif --target-dir "$H/target-repo" ) || exit 1
 echo "setup ok"
